@@ -106,6 +106,11 @@ func defaultLimiterCase(t *testing.T, idx int64, r *rand.Rand) {
 	if err != nil {
 		panic(err)
 	}
+	// the limiter is used directly or through one of the wrappers (their listeners forward the outcome; the limit of 100
+	// is never reached, so nobody ever blocks)
+	var lim core.Limiter = dl
+	wrapper := []string{"", "", "queue-fifo", "queue-lifo", "fifo-deprecated", "lifo-deprecated", "blocking", "deadline"}[r.IntN(8)]
+	cfg["wrapper"] = wrapper
 	nops := 150 + r.IntN(500)
 	if steady {
 		nops += 600
@@ -114,6 +119,23 @@ func defaultLimiterCase(t *testing.T, idx int64, r *rand.Rand) {
 	var log []string
 	deliveries, midDrops := 0, 0
 	bubble(t, func(t *testing.T) {
+		switch wrapper {
+		case "queue-fifo":
+			lim = limiter.NewQueueBlockingLimiterFromConfig(dl, limiter.QueueLimiterConfig{Ordering: limiter.OrderingFIFO})
+		case "queue-lifo":
+			lim = limiter.NewQueueBlockingLimiterFromConfig(dl, limiter.QueueLimiterConfig{Ordering: limiter.OrderingLIFO, BacklogEvictDoneCtx: true})
+		case "fifo-deprecated":
+			lim = limiter.NewFifoBlockingLimiterWithDefaults(dl)
+		case "lifo-deprecated":
+			lim = limiter.NewLifoBlockingLimiterWithDefaults(dl)
+		case "blocking":
+			lim = limiter.NewBlockingLimiter(dl, 0, nil)
+		case "deadline":
+			lim = limiter.NewDeadlineLimiter(dl, time.Now().Add(10000*time.Hour), nil)
+		}
+		if wrapper != "" {
+			rt.Count("default_limiter_cases_through_a_wrapper", 1)
+		}
 		f := newFold()
 		var nextUpdate int64 // model of the earliest instant after which the next delivery may happen
 		var hs []held
@@ -132,7 +154,7 @@ func defaultLimiterCase(t *testing.T, idx int64, r *rand.Rand) {
 		}
 		for i := 0; i < nops; i++ {
 			if len(hs) < maxHold && (len(hs) == 0 || steady || r.IntN(2) == 0) {
-				l, ok := dl.Acquire(context.Background())
+				l, ok := lim.Acquire(context.Background())
 				if !ok {
 					fail("harness-acquire-refused", rt.J{})
 					return
